@@ -292,6 +292,9 @@ func (g *caseGen) valueOf(t *idlgen.RType, depth int, cfg valgen.Config) *values
 func (g *caseGen) mkCall(m *methodInfo, clean bool) *callSpec {
 	for try := 0; try < 12; try++ {
 		c := g.mkCall1(m, clean)
+		if c == nil {
+			return nil
+		}
 		if !clean || (c.argsN != nil && (c.resN != nil || c.kind == "err" || m.Oneway)) {
 			return c
 		}
@@ -299,7 +302,88 @@ func (g *caseGen) mkCall(m *methodInfo, clean bool) *callSpec {
 	return nil // e.g. an argument type with a required recursive member: no value of it has a normal form
 }
 
+// nilUnion: the value holds a nil pointer where a union is expected outside an optional field (a container element, a
+// map value, a non-optional field): the generated Write panics on it (BATCH-notes D13) — not generated here.
+func nilUnion(s *idlgen.Schema, t *idlgen.RType, v *values.Value, optional bool) bool {
+	switch t.Kind {
+	case idlgen.RStruct:
+		st := s.Structs[t.Sidx]
+		if v.IsNil() {
+			return !optional && st.Kind == 'u'
+		}
+		for i, f := range st.Fields {
+			if i < len(v.E) && nilUnion(s, f.Type, v.E[i], f.Req == idlgen.Optional) {
+				return true
+			}
+		}
+	case idlgen.RList, idlgen.RSet:
+		if !v.IsNil() {
+			for _, e := range v.E {
+				if nilUnion(s, t.Elem, e, false) {
+					return true
+				}
+			}
+		}
+	case idlgen.RMap:
+		if !v.IsNil() {
+			for i := 0; i+1 < len(v.E); i += 2 {
+				if nilUnion(s, t.Key, v.E[i], false) || nilUnion(s, t.Elem, v.E[i+1], false) {
+					return true
+				}
+			}
+		}
+	}
+	return false
+}
+
 func (g *caseGen) mkCall1(m *methodInfo, clean bool) *callSpec {
+	saved := g.vcfg.NilElems
+	defer func() { g.vcfg.NilElems = saved }()
+	for try := 0; ; try++ {
+		if try > 8 {
+			g.vcfg.NilElems = false // no nil pointers inside containers at all
+		}
+		c := g.mkCall2(m, clean)
+		s := g.u.Schema
+		bad := nilUnion(s, &idlgen.RType{Kind: idlgen.RStruct, Sidx: m.ArgsSidx}, c.args, false)
+		// a value the reference codec refuses to encode (a union whose only member equals its declared default counts
+		// as unset: Write refuses it, C02) never leaves the writer in one piece: not generated here
+		if _, err := refcodec.Encode(s, m.ArgsSidx, c.args); err != nil {
+			bad = true
+		}
+		if !bad && c.val != nil && !m.Oneway && c.kind != "err" {
+			rs := s.Structs[m.ResSidx]
+			k := 0
+			if c.kind == "exc" {
+				k = c.exc
+				if !m.Void {
+					k++
+				}
+			}
+			if k < len(rs.Fields) && !(c.kind == "ok" && m.Void) {
+				bad = nilUnion(s, rs.Fields[k].Type, c.val, true)
+				e := &values.Value{K: values.KRecord, E: make([]*values.Value, len(rs.Fields))}
+				for i := range e.E {
+					e.E[i] = values.Nil()
+				}
+				e.E[k] = c.val
+				if _, err := refcodec.Encode(s, m.ResSidx, e); err != nil {
+					bad = true
+				}
+			}
+		}
+		if !bad {
+			return c
+		}
+		if try > 40 {
+			g.out.Count("case.unwritable_skipped")
+			return nil
+		}
+		g.out.Count("case.unwritable_regenerated")
+	}
+}
+
+func (g *caseGen) mkCall2(m *methodInfo, clean bool) *callSpec {
 	s := g.u.Schema
 	cfg := g.vcfg
 	cfg.NoNilRequired = clean || !g.r.Chance(25)
@@ -432,7 +516,9 @@ func (g *caseGen) service(svc *svcInfo, nper int) []*opCase {
 	// single calls: every reachable method, several answers
 	for _, m := range svc.All {
 		for k := 0; k < nper; k++ {
-			out = append(out, g.callLine(svc, []*callSpec{g.mkCall(m, false)}))
+			if c := g.mkCall(m, false); c != nil {
+				out = append(out, g.callLine(svc, []*callSpec{c}))
+			}
 		}
 	}
 	// sequences on one connection
